@@ -30,7 +30,7 @@ def BwOk (b : Int) : Prop := BW_NB ≤ b ∧ b ≤ BW_FB
 def Same (a b : St) : Prop :=
   b = { a with streamChannels := b.streamChannels, silkUseDtx := b.silkUseDtx, mode := b.mode, toMono := b.toMono,
                bandwidth := b.bandwidth, autoBandwidth := b.autoBandwidth,
-               detectedBandwidth := b.detectedBandwidth, lbrrCoded := b.lbrrCoded }
+               detectedBandwidth := b.detectedBandwidth, lbrrCoded := b.lbrrCoded, nbNoActivity := b.nbNoActivity }
 
 theorem Same.refl (a : St) : Same a a := rfl
 theorem Same.trans {a b c : St} (h1 : Same a b) (h2 : Same b c) : Same a c := by
